@@ -486,7 +486,7 @@ fn random_prefix(rng: &mut Rng, stats: &mut Stats, maxlen: usize, nmax: usize) -
             toks.push(format!("x:{}:{}:1:0", v, ps[rng.below(ps.len())]));
             group.push(v);
             stats.hit("reg_exclusive");
-        } else if rng.chance(1, 10) {
+        } else if rng.chance(1, 5) {
             toks.push(format!("w:{}:{}:{}", v, rand_prob(rng), rand_prob(rng)));
             stats.hit("reg_weights_unnormalised");
         } else {
@@ -572,6 +572,23 @@ fn random_prefix(rng: &mut Rng, stats: &mut Stats, maxlen: usize, nmax: usize) -
                 }
             }
         }
+    }
+    // a diagram that contains a function and its negation side by side (z <-> h, z xor h): counts of complementary
+    // sub-diagrams are related by P(not f) = 1 - P(f) only when every variable's weights sum to one
+    if nslots >= 1 && rng.chance(1, 3) {
+        let h = if let (Some(g), true) = (group_slot, rng.chance(1, 2)) { g } else { rng.below(nslots) };
+        let z = *rng.pick(&registered);
+        toks.push(format!("n:{}", h)); // nslots
+        toks.push(format!("l:{}:1", z)); // nslots + 1
+        toks.push(format!("l:{}:0", z)); // nslots + 2
+        let (pos_side, neg_side) = if rng.chance(1, 2) { (h, nslots) } else { (nslots, h) };
+        toks.push(format!("a:{}:{}", nslots + 1, pos_side)); // nslots + 3
+        toks.push(format!("a:{}:{}", nslots + 2, neg_side)); // nslots + 4
+        toks.push(format!("o:{}:{}", nslots + 3, nslots + 4)); // nslots + 5
+        nslots += 6;
+        toks.push(format!("W:{}", nslots - 1));
+        toks.push(format!("G:{}", nslots - 1));
+        stats.hit("obs_wmc_of_iff_with_complement");
     }
     // weighted counts relative to the group constraint
     if let Some(g) = group_slot {
